@@ -214,6 +214,7 @@ def ops():
     lazy("rankfrequency", lambda: (P.rankfrequency, (np.array([3.0, 1.0, float("nan"), 2.0]),), {"ax": fig_ax(), "normalize_y": True}))
     lazy("rankfrequency-raw-float-array", lambda: (P.rankfrequency, (np.array([3.0, 1.0, 7.0, 2.0]),), {"ax": fig_ax(), "normalize_x": False}))
     lazy("density_scatter-float-arrays", lambda: (P.density_scatter, (np.array([0.5, 1.5, 0.5]), np.array([2.0, 1.0, 2.0])), {"ax": fig_ax(), "discrete": True, "sort": True}))
+    lazy("graph_clustering-dbscan-float-table", lambda: (prs.graph_clustering, (np.array([(0, 1, 0.0), (1, 0, 0.0), (1, 2, 0.5), (2, 1, 0.5), (3, 4, 1.0), (4, 3, 1.0)]), list(SEQS)[:5]), {"clustering": "DBSCAN"}))
     lazy("graph_clustering-fastgreedy-ndarray", lambda: (prs.graph_clustering, (np.array([[1, 0, 1], [2, 1, 1], [4, 3, 2]]), list(SEQS)), {"clustering": "fastgreedy"}))
     lazy("labels_to_colors_hls", lambda: (P.labels_to_colors_hls, (["a", "b", "a", "c"],), {"min_count": 2}), seed=17)
     lazy("labels_to_colors_hls-palette", lambda: (P.labels_to_colors_hls, ([1, 2, 1],), {"palette_kws": {"l": 0.4, "s": 0.7}}), seed=19)
